@@ -22,8 +22,8 @@ import (
 	"strconv"
 	"strings"
 	"sync"
-	"syscall"
 	"sync/atomic"
+	"syscall"
 	"time"
 
 	"golang.org/x/net/http2"
